@@ -1,6 +1,7 @@
-(* SplitFenceGuardFacts.v — a syntactic condition that implies the guard of own_errors_only (no statement without "="
-   other than verbatim code), hence: under it parse_model raises nothing but its three own errors.
-   The one foreign exception left (ValueError from `equation.split('=')`) needs a statement that equation_re accepts
+(* SplitFenceGuardFacts.v — a syntactic condition under which every statement holds an "=" or is verbatim code.
+   (Until fix 1c7ed70 an '='-less non-verbatim statement raised ValueError, the one foreign exception left; it is a
+   ParserError now, so own_errors_always needs no such guard and this file is a structural fact about the splitter.)
+   Such a statement needs a text that equation_re accepts
    through its fenced-block alternative although it is no verbatim statement.  That takes a fence line met while a round
    bracket is open ('(\n```\n```\n)') or a fence line with other text after its backticks ('```\nfoo```\n```x').
    fences_clean excludes exactly these two: every line that starts with ``` consists of backticks only and is met with
@@ -231,13 +232,3 @@ Proof.
   eapply (clean_lines (model_lines s) s0 ys oe I0 F0); [exact I|intros l []| |exact Hc|exact E|exact Hy].
   intros l Hl. apply nosepP_no_nl. exact (proj1 (model_lines_good s l Hl)).
 Qed.
-
-(* … hence nothing but the parser's own errors, for every oracle that raises no foreign exception itself *)
-Theorem own_errors_when_fences_clean chk cs s :
-  (forall c, chk c <> ChkOtherExn) -> fences_clean_model s = true ->
-  match parse_model_M chk cs s with
-  | POk _ => True
-  | PUnmodelled => True
-  | PErr e => e = ParserError \/ e = SymbolError \/ e = IndentationError
-  end.
-Proof. intros Hchk Hc. apply own_errors_only; [exact Hchk|apply fences_clean_no_eqless, Hc]. Qed.
